@@ -266,6 +266,10 @@ class QRun:
         ident = self.pair.identity
         if name == "RAW":
             return bytes([var & 0xFF, 0, 0, 0])
+        if name == "BIG":        # header announcing 4 + 524285 bytes: one more than MAX_HANDSHAKE_MESSAGE_SIZE
+            return bytes([T.FIN, 0x07, 0xFF, 0xFD]) + b"\x00" * 4
+        if name == "BIGOK":      # 4 + 524284 = MAX_HANDSHAKE_MESSAGE_SIZE: acceptable, waits for the rest
+            return bytes([T.FIN, 0x07, 0xFF, 0xFC]) + b"\x00" * 4
         if name in ("SH", "EE") or (name == "CH" and not self.client):
             t = T.NAME_TYPE[name]
             if name == "CH":
@@ -408,7 +412,7 @@ class QRun:
             name, var = m[0], m[1] if len(m) > 1 else "good"
             if name == "CERT" and var != "empty":
                 self.victim_cert_build = var if var == "untrusted" else "good"
-            fields = T.msg_fields(self._fields_case(), m, self.victim_cert_build, True)
+            fields = T.msg_fields(self._fields_case(), ["RAW", T.FIN] if name in ("BIG", "BIGOK") else m, self.victim_cert_build, True)
             self.fields_of[raw] = (m, fields)
             built.append((m, raw))
             tr += raw
@@ -418,6 +422,13 @@ class QRun:
             data, self.carry = data[:cut], data[cut:]
         base = self.off[ep]
         kinds = []
+        if "far" in op:          # one byte far beyond what was sent so far (offset bound / MAX_PENDING_CRYPTO)
+            far = op["far"] if op["far"] >= 0 else (1 << 62) - 1 - base
+            try:
+                self.send_packet(ep, [(base + far, b"\x00")], idx)
+            except ValueError as ex:
+                self.error = str(ex)
+            return
         try:
             pkts = plan(base, data, op)
             for frames in pkts:
@@ -765,6 +776,18 @@ def gen_client(ctx):
                             if n == 1 and (order or ov or pack > 1):
                                 continue
                             cases.append(client_qcase(psk, [dict(_op(f, "handshake"), n=n, order=order, dup=dup, ov=ov, pack=pack)]))
+    # the bounds: offset + length <= 2^62 - 1, MAX_PENDING_CRYPTO, MAX_HANDSHAKE_MESSAGE_SIZE
+    for psk in (0, 1):
+        f = full[psk]
+        for far in (524287, 524288, -1):
+            for ep in ("initial", "handshake"):
+                cases.append(client_qcase(psk, [{"m": [], "ep": ep, "far": far}] + _runs(f, _right_epoch(f))))
+            cases.append(client_qcase(psk, _runs(f[:1], ["handshake"]) + [{"m": [], "ep": "handshake", "far": far}] + _runs(f[1:], _right_epoch(f[1:]))))
+            cases.append(client_qcase(psk, _runs(f, _right_epoch(f)) + [{"m": [], "ep": "1rtt", "far": far}, _op(["NST"], "1rtt")]))
+        for big in ("BIG", "BIGOK"):
+            cases.append(client_qcase(psk, [_op(["EE", big], "handshake"), _op(f[1:], "handshake")]))
+            cases.append(client_qcase(psk, [_op([big], "initial"), _op(f, "handshake")]))
+            cases.append(client_qcase(psk, _runs(f, _right_epoch(f)) + [_op([big], "1rtt", n=3, order=1), _op(["NST"], "1rtt")]))
     # random longer mixtures
     for _ in range(ctx.n(100, 3000)):
         psk = rng.choice([0, 1])
@@ -821,6 +844,13 @@ def gen_server(ctx):
                             eps[i] = wrong
                             cases.append(server_qcase(psk, req, _runs(names, eps, None, vs)))
     for psk in (0, 1):
+        for far in (524287, 524288, -1):
+            for ep in ("initial", "handshake"):
+                cases.append(server_qcase(psk, 0, [{"m": [], "ep": ep, "far": far}, _op(["FIN"], "handshake")]))
+        for big in ("BIG", "BIGOK"):
+            cases.append(server_qcase(psk, 0, [_op([big], "handshake"), _op(["FIN"], "handshake")]))
+            cases.append(server_qcase(psk, 0, [_op([big], "initial", n=4, order=2), _op(["FIN"], "handshake")]))
+    for psk in (0, 1):
         for n in (1, 2, 5, 16):
             for order in (0, 1, 2):
                 for dup in (0, 1):
@@ -868,7 +898,7 @@ def _q_rebuild(c, ops):
 
 
 def _q_opname(o):
-    return "%s@%s" % ("+".join(m[0] for m in o["m"]) or "-", o["ep"])
+    return "%s@%s" % ("+".join(m[0] for m in o["m"]) or ("far" if "far" in o else "-"), o["ep"])
 
 
 def q_suites(ctx, stale):
